@@ -216,7 +216,7 @@ def run(ctx):
 
     # ---- Brownian object: every element has its own noise element ---------------------------------
     cat = BR.catalogue(ctx.tier)
-    combos = [(sn, lv) for sn in ("batch", "matrix") for lv in P.LEVIES]
+    combos = [(sn, lv) for sn in ("batch", "matrix", "cube") for lv in P.LEVIES]
     k = 0
     for name in (["A", "B"] if quick else ["A", "B", "C2", "D", "E", "F", "G"]):
         cfg = cat[name]
